@@ -91,13 +91,15 @@ def build_dir(entries, chunk_size, density, with_index=True, max_per_chunk=None)
     return chunks, index_root, depth, 0, npmgl - 1
 
 def build(files0, files1=(), rng=None, version=3, chunk_size=4096, density=2, with_index=True, wbits=16, reset_frames=2,
-          rt_entry_size=8, with_rtable=True, with_spaninfo=True, control_version=2, lang=0x409, max_per_chunk=None, dirs=(), pad_to_reset=True, content_last=True, lzx_match_p=0.5, rt_slack=0, gaps=(0, 0, 0), rt_keep=None):
+          rt_entry_size=8, with_rtable=True, with_spaninfo=True, control_version=2, lang=0x409, max_per_chunk=None, dirs=(), pad_to_reset=True, content_last=True, lzx_match_p=0.5, rt_slack=0, gaps=(0, 0, 0), rt_keep=None, extra_entries=(), overlong_last=0):
     """files0: [(name, data)] stored uncompressed; files1: [(name, length)] stored in the LZX section (content drawn by the generator).
     returns (chm bytes, expected {name: (section, offset, length, data)})"""
     sec0 = b""; entries = []; expect = {}
     for name, data in files0:
         entries.append((name, 0, len(sec0) if len(data) else 0, len(data))); expect[name] = (0, len(sec0) if len(data) else 0, len(data), data); sec0 += data
     for d in dirs: entries.append((d, 0, 0, 0))
+    for (nm_, sec_, off_, len_) in extra_entries:      # directory entries that are only declared (their data lies beyond the file): listing and lookup see them
+        entries.append((nm_, sec_, off_, len_)); expect[nm_] = (sec_, off_, len_, None)
     if files1:
         total = sum(l for _, l in files1)
         # real CHM streams encode the data padded up to the next reset interval (the reset table's length is the unpadded one)
@@ -108,8 +110,9 @@ def build(files0, files1=(), rng=None, version=3, chunk_size=4096, density=2, wi
         stream, plain = lzxenc.encode(rng, wbits, padded, reset_interval=reset_frames, cuts=cuts, match_p=lzx_match_p)
         total_padded = padded
         off = 0
-        for name, ln in files1:
-            entries.append((name, 1, off if ln else 0, ln)); expect[name] = (1, off if ln else 0, ln, plain[off:off + ln]); off += ln
+        for k_, (name, ln) in enumerate(files1):
+            dl = ln + (overlong_last if (overlong_last and k_ == len(files1) - 1) else 0)      # the last member may be declared longer than the section holds
+            entries.append((name, 1, off if ln else 0, dl)); expect[name] = (1, off if ln else 0, dl, plain[off:off + ln]); off += ln
         nfr = (total_padded + 32767) // 32768
         frame_offs = [0] + cuts
         if len(frame_offs) != max(nfr, 1): raise ValueError("frame bookkeeping")
